@@ -2,6 +2,7 @@ package main
 
 import (
 	"fmt"
+	"go/constant"
 	"go/token"
 	"go/types"
 	"sort"
@@ -327,6 +328,35 @@ func ruleE1(c *Ctx) {
 			if !guarded {
 				okAll = false
 			}
+		}
+		if tn == "comparisonForLiteral" {
+			// literal cells: the literal types of both sides were compared directly
+			typed := false
+			allInstrs(fn, func(in ssa.Instruction) {
+				iff, ok := in.(*ssa.If)
+				if !ok {
+					return
+				}
+				bo, ok := iff.Cond.(*ssa.BinOp)
+				if !ok || (bo.Op != token.NEQ && bo.Op != token.EQL) {
+					return
+				}
+				tx, ty := c.term(bo.X), c.term(bo.Y)
+				if !(strings.HasPrefix(tx, "(*literal.Literal).Type(") && strings.HasPrefix(ty, "(*literal.Literal).Type(") && tx != ty) {
+					return
+				}
+				diff := iff.Block().Succs[0]
+				if bo.Op == token.EQL {
+					diff = iff.Block().Succs[1]
+				}
+				if r, ok := diff.Instrs[len(diff.Instrs)-1].(*ssa.Return); ok {
+					if k, ok := resultValues(r)[0].(*ssa.Const); ok && k.Value != nil && !constant.BoolVal(k.Value) {
+						typed = true
+					}
+				}
+			})
+			// the S (string cell) path is typed by the Text test instead
+			c.check(typed, "(*semantic.comparisonForLiteral).Evaluate compares literals of the same type only", fn.Pos(), "a direct test cell.L.Type() != constant.Type() returns false", "the literal comparison is reachable without the two literal types having been compared for equality (directly): an int64 is compared with a float64 (or any other mixed pair) through their padded renderings, so the condition can hold for values of different kinds")
 		}
 		c.check(okAll, key, fn.Pos(), fmt.Sprintf("%d comparison(s), each reached only after the cell's %v field was tested", len(sinks), want[tn]), fmt.Sprintf("a comparison in %s.Evaluate is reachable without testing that the cell carries a %v value: a binding of another kind is compared by its rendering and may satisfy the condition", tn, want[tn]))
 	}
